@@ -58,7 +58,7 @@ struct CaptureData : rtosc::RtData {
 };
 
 // glue used by the run-time generated trees (h_C03.cpp): the same shape as
-// rRecurCb, with the sub-table held by value in the std::function
+// rRecurCb, with the sub-table held in a heap-stored closure (see the .cpp)
 std::function<void(const char*, rtosc::RtData&)> recur_into(const rtosc::Ports *sub);
 // default handler: counts and answers
 std::function<void(const char*, rtosc::RtData&)> default_reply(void);
